@@ -357,16 +357,34 @@ class SPattern:
             fn = repl
         else:
             ritems = _items_of(repl)
-            if ritems is None or 92 in ritems:
-                raise cur()._raise(Unsupported("regex sub template with escapes"))
+            if ritems is None:
+                raise cur()._raise(Unsupported("regex sub with a non-text replacement"))
             fn = None
+            if 92 in ritems:
+                if _isinstance(repl, SSeq):
+                    if not repl.concrete():
+                        raise cur()._raise(Unsupported("regex sub template with symbolic escapes"))
+                    repl = repl.real()
+                # the interpreter's own template parser: alternating literal text and group numbers ("a\\1b" -> ['a', 1, 'b'])
+                tmpl = P.parse_template(repl, self.real)
+
+                def fn(m, tmpl=tmpl):
+                    out_: List[Any] = []
+                    for piece in tmpl:
+                        if _isinstance(piece, int):
+                            g = m.group(piece)
+                            if g is not None:  # an unmatched group expands to nothing (3.5+)
+                                out_.extend(_items_of(g))
+                        elif piece:
+                            out_.extend(_items_of(piece))
+                    return out_
         out: List[Any] = []
         last = 0
         k = 0
         for m in self.finditer(s):
             out.extend(items[last:m.st])
             r = fn(m) if fn is not None else repl
-            out.extend(_items_of(r))
+            out.extend(r if _isinstance(r, list) else _items_of(r))
             last = m.en
             k += 1
             if count and k >= count:
